@@ -289,6 +289,13 @@ def rewrite_body(body, mode, stats):
     body = replace_balanced(body, r'\bOverflowError\s*\{', '{', '}', 'OverflowError::erased()', stats, 'R8_overflow_lit')
     body = replace_balanced(body, r'\bStdError::GenericErr\s*\{', '{', '}', 'StdError::erased()', stats, 'R8_generic_lit')
     body = replace_balanced(body, r'(?<![:\w])GenericErr\s*\{', '{', '}', 'StdError::erased()', stats, 'R8_generic_lit')
+    # R11: cosmwasm_storage typed-cell primitives -> per-key shim primitives
+    body = apply_counted(r'singleton_read\(\s*([\w.]+)\s*,\s*(KEY_\w+)\s*\)\s*\.load\(\)', r'singleton_load__\2(\1)', body, stats, 'R11_storage_prim')
+    body = apply_counted(r'singleton_read\(\s*([\w.]+)\s*,\s*(KEY_\w+)\s*\)\s*\.may_load\(\)', r'singleton_may_load__\2(\1)', body, stats, 'R11_storage_prim')
+    body = apply_counted(r'singleton\(\s*([\w.]+)\s*,\s*(KEY_\w+)\s*\)\s*\.save\(\s*([^()]*?)\s*\)', r'singleton_save__\2(\1, \3)', body, stats, 'R11_storage_prim')
+    body = apply_counted(r'&\s*(\w+)\.to_be_bytes\(\)', r'be_key(\1)', body, stats, 'R11_be_key')
+    body = apply_counted(r'bucket_read\(\s*([\w.]+)\s*,\s*(KEY_\w+)\s*\)\s*\.load\(', r'bucket_load__\2(\1, ', body, stats, 'R11_storage_prim')
+    body = apply_counted(r'bucket\(\s*([\w.]+)\s*,\s*(KEY_\w+)\s*\)\s*\.save\(', r'bucket_save__\2(\1, ', body, stats, 'R11_storage_prim')
     # R9: unwrap -> unwrap_or_abort (partial mode)
     if mode == 'partial':
         body = apply_counted(r'\.unwrap\(\)', '.unwrap_or_abort()', body, stats, 'R9_unwrap')
@@ -463,7 +470,7 @@ def process_template(unit, tpl_path):
             if der is not None:
                 keep = [d.strip() for d in der.split(',') if d.strip()]
             else:
-                keep = [d for d in derives if d in ('Debug',)]
+                keep = []
             gen_clone = 'Clone' in derives and 'Clone' not in keep and not noclone
             structural = 'Structural' in keep
             keep = [d for d in keep if d != 'Structural']
